@@ -28,8 +28,8 @@ PROPS_OF = {
     "lerax/algorithm/dqn.py": ["C07", "C10", "C11", "C12"], "lerax/algorithm/sac.py": ["C07", "C10", "C11", "C12"],
     "lerax/algorithm/on_policy.py": ["C03", "C04", "C08", "C10", "C19", "C11", "C12"], "lerax/algorithm/off_policy.py": ["C05", "C07", "C10", "C19", "C11", "C12"],
     "lerax/algorithm/base_algorithm.py": ["C10", "C11", "C12"], "lerax/policy/actor_critic/mlp.py": ["C04", "C16"], "lerax/utils.py": ["C04", "C18", "C19"], "lerax/callback/logging/callback.py": ["C19", "C11"], "lerax/benchmark/__init__.py": ["C19"],
-    "lerax/wrapper/transform_action.py": ["C13", "C01"], "lerax/wrapper/transform_observation.py": ["C13", "C01"], "lerax/wrapper/transform_reward.py": ["C13", "C01"],
-    "lerax/wrapper/misc.py": ["C13", "C01"], "lerax/wrapper/utils.py": ["C13", "C01"], "lerax/wrapper/base_wrapper.py": ["C13", "C01"],
+    "lerax/wrapper/transform_action.py": ["C13", "C01", "C02"], "lerax/wrapper/transform_observation.py": ["C13", "C01", "C02"], "lerax/wrapper/transform_reward.py": ["C13", "C01", "C02"],
+    "lerax/wrapper/misc.py": ["C13", "C01", "C02"], "lerax/wrapper/utils.py": ["C13", "C01", "C02"], "lerax/wrapper/base_wrapper.py": ["C13", "C01", "C02"],
     "lerax/compatibility/gym.py": ["C13", "C14", "C01"], "lerax/compatibility/gymnax.py": ["C13"], "lerax/env/base_env.py": ["C01", "C13"],
     "lerax/space/box.py": ["C14"], "lerax/space/discrete.py": ["C14"], "lerax/space/multi_binary.py": ["C14"], "lerax/space/multi_discrete.py": ["C14"],
     "lerax/space/dict.py": ["C14", "C12"], "lerax/space/tuple.py": ["C14"],
